@@ -1011,3 +1011,11 @@ func (m *Model) HasGrant(granter, grantee sdk.AccAddress, url string, bt time.Ti
 	}
 	return 1
 }
+
+// ownerOf: the recorded owner of a denom ("" if it does not exist).
+func (m *Model) ownerOf(denom string) string {
+	if d := m.Denoms[denom]; d != nil {
+		return d.Owner
+	}
+	return ""
+}
